@@ -53,6 +53,6 @@ def groups(sc, tier):
     gs.append(Group("C15.K2.nuclide_lookups", "K2", "lemma_nuclide_lookup", unwind=145,
                     functions=["GetRadioNuclideDataByIndex", "GetRadioNuclideDataByName", "FreeRadioNuclideData"], **common_kw))
     gs.append(Group("C15.K2.symbols", "K2", "lemma_symbols", sources=["src/xraylib-parser.c", "src/xraylib-aux.c"], extra=["harness/h_symbols.c", men],
-                    backends=("sat",), timeout=1500, unwind=110, leak_check=True,
+                    backends=("sat",), timeout=1500, unwind=110, leak_check=True, object_bits=10,
                     functions=["AtomicNumberToSymbol", "SymbolToAtomicNumber"]))
     return gs
